@@ -19,7 +19,10 @@ import common
 from common import Case, sx, parse_sx
 
 PROP = "C12"
-RULE = ("life: sequences of 5-14 steps drawn from overlapping calls (2-3 concurrent calls of one service with different data, "
+RULE = ("life: calls are made through hass.services.async_call or by a script (service.call in an event-triggered "
+        "function); the called function answers with its default dict, an EMPTY dict or a dict of falsy values as the data "
+        "says; a context may declare (alone) a name another context owns - refused - and then delete / redefine / reload "
+        "that declaration; sequences of 5-14 steps drawn from overlapping calls (2-3 concurrent calls of one service with different data, "
         "the function suspends in task.sleep between receiving and using its arguments; same duration or first-started-"
         "finishes-first) and from load(file with 1-3 @service functions, 1-2 names each, supports_response "
         "none|optional|only) / unload / run-time define|redefine|delete inside driver functions / call(data, "
@@ -44,7 +47,30 @@ CTXS = ["a", "b", "c"]
 VARS = ["f", "g", "h"]
 FNS = ["opA", "opB"]
 RESPS = ["none", "optional", "only"]
-DATA = [{}, {"x": 1}, {"x": "v", "y": [1, 2]}, {"n": None, "d": {"k": 1.5}}, {"flag": True}]
+DATA = [{}, {"x": 1}, {"x": "v", "y": [1, 2]}, {"n": None, "d": {"k": 1.5}}, {"flag": True},
+        {"ret": "empty"}, {"ret": "falsy", "x": 0}, {"ret": "empty", "y": "q"}]
+RETS = {None: None, "empty": {}, "falsy": {"count": 0, "name": "", "items": []}}
+
+
+def answer(gen, data):
+    """what the generated @service function of generation `gen` returns for this call data"""
+    r = RETS.get(data.get("ret"))
+    return {"gen": gen, "tag": data.get("tag")} if r is None else r
+
+
+# the script-side caller: an event-triggered function in a context of its own (no @service in it)
+RELAY_SRC = """
+@event_trigger('ev_relay')
+def relay(k=None, dom=None, name=None, rr=None, data=None, **kw):
+    try:
+        if rr:
+            r = service.call(dom, name, return_response=True, **data)
+        else:
+            r = service.call(dom, name, blocking=True, **data)
+        rec('relay', k, 'ret', r)
+    except Exception as e:
+        rec('relay', k, 'exc', type(e).__name__)
+"""
 
 
 # ------------------------------------------------------------------ the declaration rules (property oracle)
@@ -204,6 +230,10 @@ class LifeGen:
     def clean_decl(self, ctx, fn, exclude=()):
         r = self.rng
         free = [s for s in self.free_for(ctx, fn) if s not in exclude]
+        taken = [s for s in SVCS if self.d.owner(s) not in (None, ctx)]
+        if taken and r.random() < 0.2:
+            # a name another context owns, alone: refused, and the owner must keep it whatever happens to this function
+            return [[r.choice(taken), r.choice(RESPS)]]
         if not free:
             return None
         names = r.sample(free, min(len(free), r.choice([1, 1, 2])))
@@ -259,6 +289,8 @@ class LifeGen:
             o = overlap_op(r, r.choice(live) if live and r.random() < 0.9 else r.choice(SVCS), r.random() < 0.6)
         else:
             o = {"k": "call", "svc": r.choice(SVCS), "rr": r.random() < 0.5, "data": r.choice(DATA)}
+            if r.random() < 0.3:
+                o["via"] = "script"
         if o is None:
             return
         if o["k"] not in ("call", "calls") and hazards({"legacy": self.legacy, "ops": self.ops + [o]}):
@@ -293,7 +325,7 @@ def calls_for(svcs, rng):
     out = []
     for s in svcs:
         out.append({"k": "call", "svc": s, "rr": False, "data": rng.choice(DATA)})
-        out.append({"k": "call", "svc": s, "rr": True, "data": {}})
+        out.append({"k": "call", "svc": s, "rr": True, "data": rng.choice([{}, {"ret": "empty"}])})
     return out
 
 
@@ -350,8 +382,21 @@ def hazard_cases(rng, legacy):
         {"k": "load", "ctx": c1, "defs": [{"var": v1, "gen": 1, "decl": [[s1, R()]]}]},
         {"k": "load", "ctx": c2, "defs": [{"var": v1, "gen": 2, "decl": [[s1, R()]]}]}] + calls_for([s1], rng) + [
         {"k": "rundef", "ctx": c2, "fn": "opA", "var": v2, "gen": 3, "decl": [[s1, R()]]}] + calls_for([s1], rng) + [
+        # the REFUSED declarations go away again - deleted, redefined, reloaded: the owner keeps its service
+        {"k": "rundel", "ctx": c2, "fn": "opB", "var": v1}] + calls_for([s1], rng) + [
+        {"k": "rundef", "ctx": c2, "fn": "opB", "var": v2, "gen": 4, "decl": [[s2, R()]]}] + calls_for([s1], rng) + [
+        {"k": "load", "ctx": c2, "defs": [{"var": v1, "gen": 5, "decl": [[s1, R()]]}]},
+        {"k": "load", "ctx": c2, "defs": [{"var": v2, "gen": 6, "decl": [[s2, R()]]}]}] + calls_for([s1], rng) + [
+        {"k": "unload", "ctx": c2}] + calls_for([s1], rng) + [
         {"k": "unload", "ctx": c1}] + calls_for([s1], rng) + [
-        {"k": "load", "ctx": c2, "defs": [{"var": v1, "gen": 4, "decl": [[s1, R()]]}]}] + calls_for([s1], rng)))
+        {"k": "load", "ctx": c2, "defs": [{"var": v1, "gen": 7, "decl": [[s1, R()]]}]}] + calls_for([s1], rng)))
+    # answers that are falsy but valid ({} for "nothing found"), asked for by Home Assistant and by a script
+    ro = rng.choice(["optional", "only"])
+    fam.append(("answers", [
+        {"k": "load", "ctx": c1, "defs": [{"var": v1, "gen": 1, "decl": [[s1, ro]]}, {"var": v2, "gen": 2, "decl": [[s2, "only"]]}]}]
+        + [{"k": "call", "svc": sv, "rr": rr, "data": dict(data), **({"via": "script"} if via else {})}
+           for sv, rr in ((s1, True), (s2, True), (s2, False)) for via in (False, True)
+           for data in ({"ret": "empty"}, {"ret": "falsy"}, {"x": 1}) if rr or via]))
     return [{"kind": "life", "legacy": legacy, "ops": ops, "family": name} for name, ops in fam]
 
 
@@ -421,6 +466,10 @@ def func_src(var, gen, decl, indent, multi=False):
               f"{pad}    if kw.get('delay'):",
               f"{pad}        task.sleep(kw['delay'])",
               f"{pad}    rec('call', {gen}, kw, task.current_task())",
+              f"{pad}    if kw.get('ret') == 'empty':",
+              f"{pad}        return {{}}",
+              f"{pad}    if kw.get('ret') == 'falsy':",
+              f"{pad}        return {{'count': 0, 'name': '', 'items': []}}",
               f"{pad}    return {{'gen': {gen}, 'tag': kw.get('tag')}}"]
     return lines
 
@@ -546,6 +595,8 @@ def run_life(p):
         # cycle collector; their __del__ would call service_remove on the class-level tables of THIS instance
         gc.collect()
         await env.settle(0)
+        env.write("z.py", RELAY_SRC)
+        await env.reload("file.z")
         Function.service_register = classmethod(reg)
         Function.service_remove = classmethod(rem)
         try:
@@ -604,6 +655,25 @@ def run_life(p):
                                 results.append({"call": ["ran", mine[0][2], sorted([kk, canon(vv)] for kk, vv in kw.items()),
                                                          1 if o["rr"] else 0], "response": canon(t.result())})
                     steps.append({"calls": results})
+                elif o.get("via") == "script":
+                    dom, name = o["svc"].split(".")
+                    await env.fire("ev_relay", {"k": i, "dom": dom, "name": name, "rr": o["rr"], "data": dict(o["data"])})
+                    await env.settle(0)
+                    rel = [r for r in env.records[nrec:] if r[1] == "relay" and r[2] == i]
+                    recs = [r for r in env.records[nrec:] if r[1] == "call"]
+                    if len(rel) != 1:
+                        steps.append({"call": ["harness", f"{len(rel)} relay records"], "response": None})
+                    elif rel[0][3] == "exc":
+                        name_ = rel[0][4]
+                        res = {"ServiceNotFound": "notfound", "ServiceValidationError": "invalid",
+                               "KeyError": "keyerror"}.get(name_, ["raise", name_])
+                        steps.append({"call": res, "response": None})
+                    elif len(recs) != 1:
+                        steps.append({"call": ["harness", f"{len(recs)} call records"], "response": canon(rel[0][4])})
+                    else:
+                        kw = recs[0][3]
+                        steps.append({"call": ["ran", recs[0][2], sorted([kk, canon(vv)] for kk, vv in kw.items()),
+                                               0 if rel[0][4] is None else 1], "response": canon(rel[0][4])})
                 else:
                     dom, name = o["svc"].split(".")
                     try:
@@ -773,7 +843,8 @@ def life_line(p):
             dops.append(["calls", o["svc"], 1 if o["rr"] else 0, "CTX",
                          [sorted([kk, canon(vv)] for kk, vv in data.items()) for data in o["datas"]]])
         else:
-            dops.append(["call", o["svc"], 1 if o["rr"] else 0, "CTX", sorted([kk, canon(vv)] for kk, vv in o["data"].items())])
+            dops.append(["scall" if o.get("via") == "script" else "call", o["svc"], 1 if o["rr"] else 0, "CTX",
+                         sorted([kk, canon(vv)] for kk, vv in o["data"].items())])
     return "C12 " + sx(["life", "legacy" if p["legacy"] else "new", SVCS, dops])
 
 
@@ -871,7 +942,9 @@ def judge_call(d, bad, i, svc, rr, data, st, what, pre):
     want = d.handler(svc)
     got = st["call"]
     if want is None:
-        exp = "notfound"
+        # (a script calling a service that does not exist gets KeyError from hass.services.supports_response instead of
+        #  ServiceNotFound when it did not pass return_response: the property does not fix the exception class)
+        exp = "keyerror" if what.startswith("script-side") and got == "keyerror" else "notfound"
     elif (rr and want[1] == "none") or (not rr and want[1] == "only"):
         exp = "invalid"
     else:
@@ -897,7 +970,7 @@ def judge_call(d, bad, i, svc, rr, data, st, what, pre):
         if st["response"] != canon(None):
             bad.append((i, {svc}, pre + "response", f"step {i} {what}{svc}: returned {st['response']} though no response was requested"))
     elif isinstance(exp, list):
-        wantresp = canon({"gen": exp[1], "tag": data.get("tag")}) if rr else canon(None)
+        wantresp = canon(answer(exp[1], data)) if rr else canon(None)
         if st["response"] != wantresp:
             bad.append((i, {svc}, pre + "response", f"step {i} {what}{svc} data={data}: returned {st['response']} instead of {wantresp}"))
 
@@ -927,6 +1000,10 @@ def judge_life(p):
         elif o["k"] == "calls":
             for j, (data, res) in enumerate(zip(o["datas"], st["calls"])):
                 judge_call(d, bad, i, o["svc"], o["rr"], data, res, f"overlapping call {j + 1}/{len(o['datas'])} of ", "overlap-")
+        elif o.get("via") == "script":
+            # a script's service.call: a response-only service is asked for its response by pyscript itself
+            w = d.handler(o["svc"])
+            judge_call(d, bad, i, o["svc"], o["rr"] or bool(w and w[1] == "only"), o["data"], st, "script-side call ", "script-")
         else:
             judge_call(d, bad, i, o["svc"], o["rr"], o["data"], st, "call ", "")
     return bad
